@@ -6,6 +6,8 @@
 //	        several roots, cycles, self parents, missing idToParentId entries, up to thousands of spans)
 //	qs      quickSelect / pickPivot (verif hook) and FindPercentileData on generated uint64 slices
 //	event   spanToJson (verif hook) on generated OTLP spans
+//	scroll  the tail of the search pipeline head(size+from) -> scroller(from) (verif hook) on generated
+//	        batchings, single requests and the read loops of the handlers (paging.go)
 //	e2e     span forests ingested through otlp.ProcessTraceIngest into a fresh store (one worker
 //	        process per scenario), then ProcessSearchTracesRequest (all pages), ProcessGanttChartRequest
 //	        (per trace), ProcessGeneratedDepGraph and ProcessRedTracesIngest (+ query of red-traces)
@@ -88,17 +90,19 @@ func main() {
 	sum := vhlib.NewSummary("distinct generated inputs (span maps, slices, OTLP spans, span forests) with more than one element")
 	r := vhlib.NewRng(cfg.Seed)
 	rt, rq, re, r2 := r.Fork(), r.Fork(), r.Fork(), r.Fork()
+	rs := r.Fork()
 	t0 := time.Now()
 	streamTree(cfg, rt, sum)
 	streamQS(cfg, rq, sum)
 	streamEvent(cfg, re, sum)
+	streamScroll(cfg, rs, sum)
 	t1 := time.Now()
 	streamE2E(cfg, r2, sum)
 	sum.Notes = append(sum.Notes,
 		fmt.Sprintf("direct streams %.1fs, e2e stream %.1fs", t1.Sub(t0).Seconds(), time.Since(t1).Seconds()),
 		"floats (RED, percentiles) are compared with the model's exact rationals with relative tolerance 1e-9",
 		"all generated times are multiples of 1024 ns below 2^63 (exact through the float64 conversion of the search handler)",
-		"span trees of traces with more than 1000 spans are only checked for safety (subset, no duplicates, parents), not for completeness",
+		"span trees of traces with more than 1000 spans are checked for safety (subset, no duplicates, parents); for completeness only when no two stored spans share an ingest timestamp (kinds paged / pagedwin: one span per OTLP request), where the dependency graph and RED over more than 1000 spans must be exact too",
 	)
 	sum.Write(cfg.Out)
 }
